@@ -223,9 +223,9 @@ class VarBytesColumn(Column):
 
         def finish(self, doccount):
             dbfile = self._dbfile
+            self.fill(doccount)
             lengths = self._lengths.array
             offsets = self._offsets.array
-            self.fill(doccount)
 
             dbfile.write_array(lengths)
 
